@@ -155,8 +155,11 @@ def gen_thread_prog(rng, names, n):
             ops.append([rng.choice(["pickle", "copy", "deepcopy"]), slot,
                         rng.choice([0, 1, 2, 3, 4, 5])])
         elif r < 0.91:
-            k = rng.choice(["nocache", "instance_off", "instance_str"])
-            if k == "nocache":
+            k = rng.choice(["nocache", "instance_off", "instance_str",
+                            "mk_local", "mk_range"])
+            if k in ("mk_local", "mk_range"):
+                ops.append([k, slot, rng.choice(POSIX)])
+            elif k == "nocache":
                 ops.append(["nocache", slot, rng.choice(names)])
             elif k == "instance_off":
                 ops.append(["instance_off", slot, rng.choice(OFF_NAMES),
@@ -255,8 +258,11 @@ def generate(cls, rng):
             ops.append(["set_cache_size", rng.choice([0, 1, 2, 3, 8, 10])])
         elif r < 0.90:
             ops.append(["set_tz", rng.choice(TZ_SETTINGS)])
-        elif r < 0.94:
+        elif r < 0.92:
             ops.append(["nocache", slot, rng.choice(names)])
+        elif r < 0.94:
+            ops.append([rng.choice(["mk_local", "mk_range"]), slot,
+                        rng.choice(POSIX)])
         elif faults_on:
             target = rng.choice(
                 [ZW.ZI1 + "/" + n for n in FILE_NAMES[:4] + [DUP_NAME]])
@@ -497,6 +503,15 @@ class Actor(object):
             return tz.tzoffset.instance(op[2], off_value(op[3]))
         if k == "instance_str":
             return tz.tzstr.instance(op[2])
+        if k == "mk_local":
+            return tz.tzlocal()
+        if k == "mk_range":
+            # the tzrange that states the same rules as a TZ string
+            ref = tz.tzstr.instance(op[2])
+            return tz.tzrange(ref._std_abbr, ref._std_offset, ref._dst_abbr,
+                              ref._dst_offset if ref._dst_abbr else None,
+                              start=ref._start_delta, end=ref._end_delta) \
+                if hasattr(ref, "_std_abbr") else ref
         raise ValueError(op)
 
     def do(self, op):
@@ -505,7 +520,8 @@ class Actor(object):
         k = op[0]
         if k in ("gettz", "tzoffset", "tzstr", "tzutc"):
             return self.request(op)
-        if k in ("nocache", "instance_off", "instance_str"):
+        if k in ("nocache", "instance_off", "instance_str", "mk_local",
+                 "mk_range"):
             return self.fresh(op)
         if k == "drop":
             with K.mute():
@@ -790,6 +806,7 @@ class Actor(object):
             prov = self.provenance(op, obj)
             o = None if obj is None else sim.reg.ordinal(obj, "fresh", prov)
             must_be_fresh = op[0] != "nocache" or prov == "file"
+            ctx.probe("fresh." + op[0])
             if must_be_fresh and obj is not None:
                 for rec in sim.held.values():
                     if rec["obj"] is obj:
@@ -807,7 +824,10 @@ class Actor(object):
                     twin_key = ("gettz", op[2])
                 elif op[0] == "instance_off":
                     twin_key = ("tzoffset", op[2], float(op[3][1]))
+                elif op[0] == "mk_local":
+                    twin_key = None
                 else:
+                    # tzstr.instance, and the tzrange stating the same rules
                     twin_key = ("tzstr", op[2], False)
                 for rec in sim.held.values():
                     if rec["key"] == twin_key and rec["obj"] is not None \
@@ -836,7 +856,7 @@ class Actor(object):
             return [(ts, (v, op[2], 0)) for ts in sim.PROBE_TS]
         if k == "tzutc":
             return [(ts, (0, "UTC", 0)) for ts in sim.PROBE_TS]
-        if k in ("tzstr", "instance_str"):
+        if k in ("tzstr", "instance_str", "mk_range"):
             posix = bool(op[3]) if k == "tzstr" else False
             ref = sim.tz.tzstr.instance(op[2], posix)
             return [(ts, ZW.observe(ref, ts)) for ts in sim.PROBE_TS]
